@@ -101,6 +101,7 @@ def body(ctx):
     wait_mapping(ctx, prog, viol)
     event_handler_frame(ctx, prog, viol)
     tune_step(ctx, prog)
+    every_cut_of_the_stream(ctx, prog)
     if viol:
         # step-level counterexamples are confirmed by a battery of scripted-broker handshakes over loopback TCP
         ctx.report('handshake-behaviour', f"{len(viol)} handshake obligations violated, e.g. {str(viol[0])[:300]}", {'solver_counterexamples': [str(v)[:300] for v in viol[:6]]},
@@ -442,6 +443,24 @@ fn verif_replay_c16() {{
     if got != "{want}" {{ println!("VERIF-REPLAY-VIOLATION got={{}} want={want}", got); }} else {{ println!("VERIF-REPLAY-OK"); }}
 }}
 '''
+
+
+def every_cut_of_the_stream(ctx, prog):
+    """the handshake works for every cut of the stream in both directions: the decoder's read loop (obligations of C06) and the write
+    loop under short writes / would-block, sealed or not (obligations of C01) are the same code the running connection uses"""
+    import c01, c06
+    v6 = []
+    for k in (1, 2):
+        c06.iterations(ctx, prog, k, v6)
+    c06.iterations(ctx, prog, 1, v6, from_head=True)
+    if v6:
+        ctx.report('segmentation-dependent-decoding', f"read loop: {str(v6[0])[:300]}; natively confirmed by the segmentation differential", {'solver_counterexamples': [str(v)[:400] for v in v6[:4]]},
+                   c06.NATIVE_DIFF, inject_into='src/frame_buffer.rs', profiles=('dev',), hang_is_violation=True, panic_is_violation=True)
+    wv = []
+    c01.write_loop(ctx, prog, wv)
+    if wv:
+        ctx.replay_timeout = 180
+        ctx.report('outbound-stream', f"write loop: {str(wv[0])[:300]}", {'solver_counterexamples': [str(v)[:300] for v in wv[:4]]}, c01.NATIVE, inject_into='src/io_loop/mod.rs', profiles=('dev',), hang_is_violation=True, panic_is_violation=True)
 
 
 def tune_step(ctx, prog):
